@@ -23,6 +23,10 @@ func genC17(r *simrt.RNG, tier string, variant int) Plan {
 	p.Family = "healthy"
 	if r.Bool(0.4) {
 		p.Family = "blackhole"
+	} else if r.Bool(0.3) {
+		// the same healthy-link oracle, but on a connection that was re-established
+		// after one reset: everything the keepalive needs must be set up again
+		p.Family = "healthy-after-reconnect"
 	}
 	T := Pick(r, c17Timeouts)
 	if variant >= 0 {
@@ -180,9 +184,22 @@ func runC17(e *Env, p *Plan) {
 	}
 
 	// healthy family
+	allowed := 1
+	if p.Family == "healthy-after-reconnect" {
+		e.N.Inject(0, "rst", "both", 0)
+		if !e.S.Settle(2*T + 4*dur(p.Clients[0].BackoffMax) + time.Second) {
+			return
+		}
+		if len(e.N.Dials()) < 2 {
+			e.Violate("C17.silent-peer-detected", "the connection was reset but the client did not reconnect within 2*timeout")
+			return
+		}
+		allowed = len(e.N.Dials())
+		e.Probe("healthy-oracle-on-a-reconnected-link")
+	}
 	e.Invariant("C17.healthy-link-kept", func() string {
-		if d := e.N.Dials(); len(d) > 1 {
-			return fmt.Sprintf("the client dialed again on a healthy link (timeout=%v ping=%v server-ping=%v): redial at %v", T, P, dur(p.Servers[0].PingNs), d[1].At)
+		if d := e.N.Dials(); len(d) > allowed {
+			return fmt.Sprintf("the client dialed again on a healthy link (timeout=%v ping=%v server-ping=%v, %d connection(s) before): redial at %v", T, P, dur(p.Servers[0].PingNs), allowed, d[allowed].At)
 		}
 		return ""
 	})
@@ -199,10 +216,10 @@ func runC17(e *Env, p *Plan) {
 	if !e.S.Settle(time.Millisecond) {
 		return
 	}
-	if d := e.N.Dials(); len(d) != 1 {
+	if d := e.N.Dials(); len(d) != allowed {
 		at := time.Duration(0)
-		if len(d) > 1 {
-			at = d[1].At
+		if len(d) > allowed {
+			at = d[allowed].At
 		}
 		e.Violate("C17.healthy-link-kept", "the client dialed %d times on a healthy link (timeout=%v ping=%v server-ping=%v): first redial at %v", len(d), T, P, dur(p.Servers[0].PingNs), at)
 	}
